@@ -625,6 +625,21 @@ func workerMain(t *testing.T) {
 					isKnown = true
 				}
 			}
+			if isKnown {
+				// a listed finding: one record per signature and worker, no minimisation
+				if seenSig["known:"+o.Violation.Signature] >= 1 {
+					continue
+				}
+				seenSig["known:"+o.Violation.Signature]++
+				wb, _ := json.Marshal(w)
+				rf := ReplayFile{Property: prop, Scenario: sc.Name, Seed: seed, Signature: o.Violation.Signature, Detail: o.Violation.Detail, Workload: wb, TraceHash: fmt.Sprintf("%016x", x.Stats.TraceHash), Tier: tier, Note: "known finding"}
+				name := fmt.Sprintf("%s/%s-known-%08x.json", replayDir, prop, uint32(hash64([]byte(o.Violation.Signature))))
+				rb, _ := json.MarshalIndent(rf, "", " ")
+				os.MkdirAll(replayDir, 0755)
+				os.WriteFile(name, rb, 0644)
+				emit(RunRecord{Kind: "violation", Seed: seed, Scenario: sc.Name, Signature: o.Violation.Signature, Detail: o.Violation.Detail, Replay: name, Known: true})
+				continue
+			}
 			if seenSig[cls] >= 3 || seenSig[o.Violation.Signature] >= 1 { // a few replays per class and worker, one per signature
 				sum.Counters["violations_duplicate_class"]++
 				continue
